@@ -2390,4 +2390,158 @@ theorem step_readInto_exact (i : Nat) (s : State) (v : Iov) (room : Nat) (hv : s
   simp only [List.nil_append] at h1
   exact ⟨w', by simp only [step, h1]; rfl⟩
 
+/-! ### C04: pending placeholders, immutability of known bytes -/
+
+/-- The cell for byte `b` at logical offset `off`. -/
+def cellAt (brs : List (Nat × BackrefInfo)) (off : Nat) (b : UInt8) : Cell :=
+  match holeAt brs off with
+  | some k => Cell.hole k
+  | none => Cell.byte b
+
+theorem mkCells_cons (brs : List (Nat × BackrefInfo)) (off : Nat) (b : UInt8) (t : List UInt8) :
+    mkCells brs off (b :: t) = cellAt brs off b :: mkCells brs (off + 1) t := rfl
+
+theorem mkCells_getElem? (brs : List (Nat × BackrefInfo)) (off : Nat) (bs : List UInt8) (j : Nat) :
+    (mkCells brs off bs)[j]? = bs[j]?.map (cellAt brs (off + j)) := by
+  induction bs generalizing off j with
+  | nil => simp [mkCells]
+  | cons x t ih =>
+    rw [mkCells_cons]
+    cases j with
+    | zero => simp
+    | succ j =>
+      simp only [List.getElem?_cons_succ]
+      rw [ih, show off + 1 + j = off + (j + 1) by omega]
+
+theorem any_not_isByte_map_byte (bs : List UInt8) : (bs.map Cell.byte).any (fun c => !c.isByte) = false := by
+  induction bs with
+  | nil => rfl
+  | cons b t ih => simp [Cell.isByte, ih]
+
+/-- `has_pending_backrefs` (hence `iovs`/`flatten`/`stable_consumer` reporting an error) holds
+exactly when the abstract pipe still has a hole. -/
+theorem hasPending_eq_pending {w : World} {v : Iov} (h : IovInv w v) :
+    v.hasPending = (absCells w v).any (fun c => !c.isByte) := by
+  unfold Iov.hasPending
+  cases hb : v.backrefs with
+  | nil =>
+    have : absCells w v = (w.flat v.slices).map Cell.byte := by
+      unfold absCells
+      apply mkCells_none
+      intro j _
+      rw [hb]; rfl
+    rw [this, any_not_isByte_map_byte]; rfl
+  | cons e t =>
+    have he : e ∈ v.backrefs := by rw [hb]; simp
+    have hbo := h.br_ok e he
+    have hk := hbo.key_le h.size_eq
+    have hs := hbo.start_ge
+    have hp := hbo.len_pos
+    have hfl := h.flat_length
+    have hsz := h.size_eq
+    have hin : InRange e (v.consumedSize + (e.1 - 1 - v.consumedSize)) := by unfold InRange; omega
+    have hh := holeAt_eq_some_of_mem h.br_sorted he hin
+    have hlt : e.1 - 1 - v.consumedSize < (w.flat v.slices).length := by omega
+    have hcell : (absCells w v)[e.1 - 1 - v.consumedSize]? = some (Cell.hole e.1) := by
+      unfold absCells
+      rw [mkCells_getElem?, List.getElem?_eq_getElem hlt]
+      simp only [Option.map_some, cellAt, hh]
+    have hmem : Cell.hole e.1 ∈ absCells w v := List.mem_of_getElem? hcell
+    have : (absCells w v).any (fun c => !c.isByte) = true := by
+      rw [List.any_eq_true]
+      exact ⟨_, hmem, rfl⟩
+    rw [this]; rfl
+
+/-- With no pending backref the stable prefix is everything that is buffered. -/
+theorem visible_all_of_no_pending {w : World} {v : Iov} (h : IovInv w v) (hp : v.hasPending = false) :
+    w.visible v = w.flat v.slices ∧ absCells w v = (w.visible v).map Cell.byte := by
+  have hb : v.backrefs = [] := by
+    unfold Iov.hasPending at hp
+    cases hbb : v.backrefs with
+    | nil => rfl
+    | cons _ _ => rw [hbb] at hp; simp at hp
+  have hv : w.visible v = w.flat v.slices := by
+    unfold World.visible; rw [stableN_nil v hb, List.take_length]
+  refine ⟨hv, ?_⟩
+  rw [hv]
+  unfold absCells
+  apply mkCells_none
+  intro j _
+  rw [hb]; rfl
+
+theorem fillCells_byte (id : Nat) : ∀ (l : List Cell) (src : List UInt8) (j : Nat) (b : UInt8),
+    l[j]? = some (Cell.byte b) → (fillCells id l src)[j]? = some (Cell.byte b) := by
+  intro l
+  induction l with
+  | nil => intro src j b h; simp at h
+  | cons c t ih =>
+    intro src j b h
+    cases c with
+    | byte x =>
+      have : fillCells id (Cell.byte x :: t) src = Cell.byte x :: fillCells id t src := by
+        cases src <;> simp [fillCells]
+      rw [this]
+      cases j with
+      | zero => simpa using h
+      | succ j => simp only [List.getElem?_cons_succ] at h ⊢; exact ih src j b h
+    | hole k =>
+      cases src with
+      | nil => rw [fillCells_nil_src]; exact h
+      | cons s ss =>
+        simp only [fillCells]
+        cases j with
+        | zero => simp at h
+        | succ j =>
+          simp only [List.getElem?_cons_succ] at h
+          split
+          · simp only [List.getElem?_cons_succ]; exact ih ss j b h
+          · simp only [List.getElem?_cons_succ]; exact ih (s :: ss) j b h
+
+/-- A byte cell of the ledger never changes (until `clear`). -/
+theorem ledgerStep_byte (l : List Cell) (op : Op) (r : Ret) (hop : op ≠ .clear) (j : Nat) (b : UInt8)
+    (h : l[j]? = some (Cell.byte b)) : (ledgerStep l op r)[j]? = some (Cell.byte b) := by
+  have hj : j < l.length := by
+    rcases Nat.lt_or_ge j l.length with h1 | h1
+    · exact h1
+    · rw [List.getElem?_eq_none h1] at h; cases h
+  have happ : ∀ x : List Cell, (l ++ x)[j]? = some (Cell.byte b) := fun x => by
+    rw [List.getElem?_append_left hj]; exact h
+  cases op with
+  | pushCopy src => exact happ _
+  | pushBorrowed b' => exact happ _
+  | push b' => exact happ _
+  | extend bs => exact happ _
+  | registerPatch pat =>
+    cases r with
+    | token t =>
+      cases t with
+      | none => exact h
+      | some e => obtain ⟨k, inf⟩ := e; exact happ _
+    | unit => exact h
+    | took n rm => exact h
+  | backfill tok src =>
+    cases tok with
+    | none => exact h
+    | some e => obtain ⟨k, inf⟩ := e; exact fillCells_byte k l src j b h
+  | clear => exact absurd rfl hop
+  | consume c => exact h
+  | pop => exact h
+  | advance c => exact h
+  | readInto c => exact h
+  | flush => exact h
+  | reserve k => exact h
+
+theorem ledger_byte (ops : List Op) : ∀ (l : List Cell) (rs : List Ret), Op.clear ∉ ops → ∀ (j : Nat) (b : UInt8),
+    l[j]? = some (Cell.byte b) → (ledger l ops rs)[j]? = some (Cell.byte b) := by
+  induction ops with
+  | nil => intro l rs _ j b h; cases rs <;> exact h
+  | cons op ops ih =>
+    intro l rs hnc j b h
+    cases rs with
+    | nil => exact h
+    | cons r rs =>
+      simp only [ledger]
+      apply ih _ _ (fun hm => hnc (by simp [hm]))
+      exact ledgerStep_byte l op r (fun e => hnc (by simp [e])) j b h
+
 end Woodpile.Iovec
